@@ -282,6 +282,8 @@ func strLit(s string) string {
 func sel(a, i string) string      { return app("select", a, i) }
 func store(a, i, v string) string { return app("store", a, i, v) }
 
+var zeroArrayDecls = map[string]string{}
+
 func zeroOfSort(sort string) string {
 	switch sort {
 	case sInt:
@@ -296,6 +298,12 @@ func zeroOfSort(sort string) string {
 	if strings.HasPrefix(sort, "(Array ") {
 		// (Array I E)
 		_, e := splitArraySort(sort)
+		if strings.Contains(sort, sF64) {
+			// constant arrays need a value; F64 is an uninterpreted sort, so use a declared zero array instead
+			name := sym("zero:" + sort)
+			zeroArrayDecls[name] = fmt.Sprintf("(declare-const %s %s)", name, sort)
+			return name
+		}
 		return "((as const " + sort + ") " + zeroOfSort(e) + ")"
 	}
 	panic("zeroOfSort: " + sort)
